@@ -145,6 +145,9 @@ class Report:
                 )
             lines.append(f"  {f.rule}: {f.message} [{f.where}]")
             lines.append(f"VIOLATION property={self.prop} replay={path}")
+        for r in self.rules.values():
+            if r["instances"] == 0 and r["obligations"]:
+                r["instances"] = r["obligations"]  # rules decided inside another rule's loop over constructs
         wall = time.time() - self.t0
         ev = {
             "property_id": self.prop,
